@@ -221,7 +221,7 @@ CHECKS["C05"] = {
     ],
     "mandatory_labels": {"all": ["crypto/kind=account", "crypto/kind=contact", "crypto/kind=multimember", "crypto/counter>=128", "crypto/messages-before-announcement",
                                  "distribution/multimember", "distribution/activated-before-seeing-anyone", "distribution/second-device-after-secrets",
-                                 "concurrent/dfs-schedules", "concurrent/first-use-of-the-chain-key"]},
+                                 "concurrent/dfs-schedules", "concurrent/first-use-of-the-chain-key", "distribution/entries-received-before-activation"]},
 }
 
 CHECKS["C04"] = {
